@@ -65,18 +65,18 @@ fn check_against_spec(r: TimelockInfo, s: TimelockInfo, which: u8) {
     match which {
         0 => {
             assert!(r.csv_with_height == s.csv_with_height && r.csv_with_time == s.csv_with_time
-                && r.cltv_with_height == s.cltv_with_height && r.cltv_with_time == s.cltv_with_time, "C18:combine_and.flags_are_union");
-            assert!(r.contains_combination == s.contains_combination, "C18:combine_and.combination_iff_pairwise_conflict");
+                && r.cltv_with_height == s.cltv_with_height && r.cltv_with_time == s.cltv_with_time, "C18,C12:combine_and.flags_are_union");
+            assert!(r.contains_combination == s.contains_combination, "C18,C12:combine_and.combination_iff_pairwise_conflict");
         }
         1 => {
             assert!(r.csv_with_height == s.csv_with_height && r.csv_with_time == s.csv_with_time
-                && r.cltv_with_height == s.cltv_with_height && r.cltv_with_time == s.cltv_with_time, "C18:combine_or.flags_are_union");
-            assert!(r.contains_combination == s.contains_combination, "C18:combine_or.combination_only_inherited");
+                && r.cltv_with_height == s.cltv_with_height && r.cltv_with_time == s.cltv_with_time, "C18,C12:combine_or.flags_are_union");
+            assert!(r.contains_combination == s.contains_combination, "C18,C12:combine_or.combination_only_inherited");
         }
         _ => {
             assert!(r.csv_with_height == s.csv_with_height && r.csv_with_time == s.csv_with_time
-                && r.cltv_with_height == s.cltv_with_height && r.cltv_with_time == s.cltv_with_time, "C18:combine_threshold.flags_are_union");
-            assert!(r.contains_combination == s.contains_combination, "C18:combine_threshold.combination_iff_pairwise_conflict");
+                && r.cltv_with_height == s.cltv_with_height && r.cltv_with_time == s.cltv_with_time, "C18,C12:combine_threshold.flags_are_union");
+            assert!(r.contains_combination == s.contains_combination, "C18,C12:combine_threshold.combination_iff_pairwise_conflict");
         }
     }
 }
@@ -96,7 +96,7 @@ fn tl_combine_and() {
     let direct = a.contains_combination || b.contains_combination
         || (a.csv_with_height && b.csv_with_time) || (b.csv_with_height && a.csv_with_time)
         || (a.cltv_with_height && b.cltv_with_time) || (b.cltv_with_height && a.cltv_with_time);
-    assert!(r.contains_combination == direct, "C18:combine_and.combination_direct");
+    assert!(r.contains_combination == direct, "C18,C12:combine_and.combination_direct");
 }
 
 #[kani::proof]
@@ -108,7 +108,7 @@ fn tl_combine_or() {
     let r = TimelockInfo::combine_or(a, b);
     let ts = [a, b, TimelockInfo::new(), TimelockInfo::new()];
     check_against_spec(r, spec_combine(1, &ts, 2), 1);
-    assert!(r.contains_combination == (a.contains_combination || b.contains_combination), "C18:combine_or.combination_direct");
+    assert!(r.contains_combination == (a.contains_combination || b.contains_combination), "C18,C12:combine_or.combination_direct");
 }
 
 // bounded: n <= 4 children, symbolic k (any usize, including 0 and k > n), un-rewritten closure fold
@@ -136,9 +136,9 @@ fn tl_leaf_after() {
     kani::cover!(n < BIP65_THRESHOLD);
     kani::cover!(n >= BIP65_THRESHOLD);
     let i = ExtData::after(t).timelock_info;
-    assert!(i.cltv_with_height == (n < BIP65_THRESHOLD), "C18:leaf_after.height_iff_below_500M");
-    assert!(i.cltv_with_time == (n >= BIP65_THRESHOLD), "C18:leaf_after.time_iff_at_least_500M");
-    assert!(!i.csv_with_height && !i.csv_with_time && !i.contains_combination, "C18:leaf_after.nothing_else");
+    assert!(i.cltv_with_height == (n < BIP65_THRESHOLD), "C18,C12:leaf_after.height_iff_below_500M");
+    assert!(i.cltv_with_time == (n >= BIP65_THRESHOLD), "C18,C12:leaf_after.time_iff_at_least_500M");
+    assert!(!i.csv_with_height && !i.csv_with_time && !i.contains_combination, "C18,C12:leaf_after.nothing_else");
 }
 
 #[kani::proof]
@@ -150,9 +150,9 @@ fn tl_leaf_older() {
     };
     kani::cover!(n & BIP68_TYPE_FLAG != 0);
     kani::cover!(n & BIP68_TYPE_FLAG == 0);
-    assert!(n & BIP68_DISABLE_FLAG == 0 && n != 0, "C18:leaf_older.domain");
+    assert!(n & BIP68_DISABLE_FLAG == 0 && n != 0, "C18,C12:leaf_older.domain");
     let i = ExtData::older(t).timelock_info;
-    assert!(i.csv_with_time == (n & BIP68_TYPE_FLAG != 0), "C18:leaf_older.time_iff_type_flag");
-    assert!(i.csv_with_height == (n & BIP68_TYPE_FLAG == 0), "C18:leaf_older.height_iff_no_type_flag");
-    assert!(!i.cltv_with_height && !i.cltv_with_time && !i.contains_combination, "C18:leaf_older.nothing_else");
+    assert!(i.csv_with_time == (n & BIP68_TYPE_FLAG != 0), "C18,C12:leaf_older.time_iff_type_flag");
+    assert!(i.csv_with_height == (n & BIP68_TYPE_FLAG == 0), "C18,C12:leaf_older.height_iff_no_type_flag");
+    assert!(!i.cltv_with_height && !i.cltv_with_time && !i.contains_combination, "C18,C12:leaf_older.nothing_else");
 }
